@@ -214,9 +214,63 @@ func C12(r *core.Run) {
 			}
 		}
 	}
+	runAll := func(in in, shard, n int, o *out) {
+		wd := filepath.Join(in.Dir, fmt.Sprint("a", shard))
+		core.Tree{"regex-assembly/toolchain.yaml": c01Yaml, "regex-assembly/include/": "", "rules/": ""}.Materialise(wd)
+		root := inproc.NewRoot(wd)
+		conf := filepath.Join(wd, "rules/REQUEST-123-TEST.conf")
+		texts := []string{"homer\nmarge\n", "bart|lisa\n", `a"b` + "\n", "x y \n", "^q$\n", "mag[gie]+\n"}
+		idx := 0
+		for _, p0 := range texts {
+			for _, p1 := range texts {
+				for _, p2 := range texts {
+					if idx++; idx%n != shard {
+						continue
+					}
+					r.Inflight("all:" + p0 + p1 + p2)
+					file := rulesFile(ruleSpec{ID: "123456", Regex: "STALE0", Chain: []string{"STALE1", "STALE2"}}, ruleSpec{ID: "123457", Regex: "STALE3"})
+					os.WriteFile(conf, []byte(file), 0o644)
+					progs := map[string]string{"123456": p0, "123456-chain1": p1, "123456-chain2": p2, "123457": p1}
+					want := file
+					for i, a := range []string{"123456", "123456-chain1", "123456-chain2", "123457"} {
+						os.WriteFile(filepath.Join(wd, "regex-assembly", a+".ra"), []byte(progs[a]), 0o644)
+						g := root.Generate(progs[a])
+						want = strings.Replace(want, fmt.Sprintf("STALE%d", i), g.Out, 1)
+					}
+					o.Programs++
+					o.Transitions += 2
+					o.States++
+					up := root.UpdateAll()
+					got, _ := os.ReadFile(conf)
+					fail := func(clause, why string) {
+						o.Fails = append(o.Fails, c12Fail{clause, p0 + "|" + p1 + "|" + p2, "update --all over 123456, 123456-chain1, 123456-chain2, 123457", "", string(got), why, "all"})
+					}
+					if up.Kind != inproc.OK || string(got) != want {
+						fail("stored-equals-generated", "after update --all the stored operands are not the generated regexes of their own assembly files")
+						continue
+					}
+					if c := root.CompareAll(true); c.Kind != inproc.OK || strings.Count(c.Stdout, "has not changed") != 4 {
+						fail("update-then-compare-unchanged", "compare --all (github) after update --all does not report four unchanged rules: "+tailStr(c.Stdout, 200))
+					}
+					for _, a := range []string{"123456", "123456-chain1", "123456-chain2", "123457"} {
+						o.Transitions++
+						if c := root.Compare(a, false); c.Kind != inproc.OK || !strings.Contains(c.Stdout, "has not changed") {
+							fail("update-then-compare-unchanged", "compare "+a+" after update --all reports a change")
+						}
+					}
+					if up2 := root.UpdateAll(); up2.Kind != inproc.OK {
+						fail("update-twice-noop", "second update --all fails")
+					} else if again, _ := os.ReadFile(conf); string(again) != want {
+						fail("update-twice-noop", "second update --all changes the rules file")
+					}
+				}
+			}
+		}
+	}
 	outs, deaths := core.Parallel(r, "machine", spec, r.Workers, func(in in, shard, n int, emit func(out)) {
 		var o out
 		run(in, shard, n, false, 0, &o)
+		runAll(in, shard, n, &o)
 		emit(o)
 	})
 	// the same machine through the real CLI for a slice of the programs
